@@ -65,6 +65,8 @@ def case(ctx, rng, idx):
         ctx.cat("kwargs-spelled-as-numpy-scalars")
     if cfg["stale_degree"]:
         ctx.cat("quadratic-model-with-stale-degree-3")
+    if cfg.get("derived_sibling"):
+        ctx.cat("model-derived-from-common-ancestor:" + cfg["derived_sibling"])
     if cfg["long_spelling"]:
         ctx.cat("dict-with-long-raw-spellings")
     if cfg["zero_entry"]:
